@@ -506,6 +506,60 @@ def subscribe_lock_discipline(c, loader):
     return out
 
 
+HANDED_STATE = {"observers", "exception", "value", "has_value", "queue"}
+
+
+def state_lock_discipline(c, loader):
+    """... and the other half of that discipline: the state `_subscribe_core` reads under the lock (the observer list, the recorded error, the
+    current / last value, the retained values) is read and WRITTEN only under that lock by every other method of the class - a store made
+    before taking the lock (`self.value = v; with self.lock: snapshot`) can be seen by a subscriber that registers in between, which then
+    gets v twice.  A helper that touches the state without locking is fine when every call of it sits inside a locked block (ReplaySubject._trim)."""
+    import ast as _ast
+    try:
+        cnode = loader.find(c.file, c.cls)
+    except Exception:  # noqa: BLE001
+        return []
+    uid = f"{c.uid}/lock-discipline"
+    methods = [n for n in cnode.body if isinstance(n, (_ast.FunctionDef, _ast.AsyncFunctionDef))]
+
+    def parents_of(node):
+        par = {}
+        for n in _ast.walk(node):
+            for ch in _ast.iter_child_nodes(n):
+                par[ch] = n
+        return par
+
+    def locked(n, par):
+        p = par.get(n)
+        while p is not None:
+            if isinstance(p, _ast.With) and any(isinstance(i.context_expr, _ast.Attribute) and i.context_expr.attr == "lock" for i in p.items):
+                return True
+            p = par.get(p)
+        return False
+    unlocked = {}
+    for m in methods:
+        if m.name in ("__init__", "_subscribe_core"):
+            continue  # (construction happens before the object is shared; _subscribe_core has obligations of its own)
+        par = parents_of(m)
+        for n in _ast.walk(m):
+            if isinstance(n, _ast.Attribute) and isinstance(n.value, _ast.Name) and n.value.id == "self" and n.attr in HANDED_STATE and not locked(n, par):
+                unlocked.setdefault(m.name, []).append(f"self.{n.attr} (line {n.lineno})")
+    # helpers whose every call site is inside a locked block
+    for name in list(unlocked):
+        calls, ok = 0, True
+        for m in methods:
+            par = parents_of(m)
+            for n in _ast.walk(m):
+                if isinstance(n, _ast.Call) and isinstance(n.func, _ast.Attribute) and n.func.attr == name and isinstance(n.func.value, _ast.Name) and n.func.value.id == "self":
+                    calls += 1
+                    ok = ok and locked(n, par)
+        if calls and ok:
+            del unlocked[name]
+    return [{"id": f"{uid}/touches-the-state-handed-to-new-subscribers-only-under-the-lock", "verdict": "proved" if not unlocked else "refuted",
+             "backend": "lock-discipline (AST)", "model": {}, "path": [], "seconds": 0.0, "kind": "lock",
+             "detail": f"outside `with self.lock` (and not in a helper called only under it): {unlocked}"}]
+
+
 def run_unit(desc):
     import importlib
 
@@ -522,6 +576,8 @@ def run_unit(desc):
         "bounded": [],
     }
     rep["results"] += subscribe_lock_discipline(c, h.loader)
+    if any(x.get("id", "").endswith("/lock-discipline/reads-the-subject's-state-only-under-its-lock") for x in rep["results"]):
+        rep["results"] += state_lock_discipline(c, h.loader)
     if c.witness:
         import json
         import os
